@@ -1,6 +1,7 @@
 package main
 
 import (
+	"fmt"
 	"encoding/json"
 	"os"
 	"sort"
@@ -26,6 +27,7 @@ type knownEntry struct {
 	Where    string      `json:"where_contains"`
 	Stack    string      `json:"stack_contains"`
 	When     []knownCond `json:"when"`
+	Classes  []string    `json:"classes"` // exact values of the harness's "class" note (any of)
 	Status   string      `json:"status"` // known | fixed: <commit>
 	Witness  string      `json:"witness"`
 	Note     string      `json:"note"`
@@ -69,6 +71,17 @@ func (kf *knownFile) match(prop string, v *interp.Violation) (string, bool) {
 		if e.Stack != "" && !strings.Contains(strings.Join(v.Stack, "\n"), e.Stack) {
 			continue
 		}
+		if len(e.Classes) > 0 {
+			found := false
+			for _, c := range e.Classes {
+				if c == v.Notes["class"] {
+					found = true
+				}
+			}
+			if !found {
+				continue
+			}
+		}
 		ok := true
 		for _, c := range e.When {
 			val, found := uint64(0), false
@@ -100,6 +113,10 @@ func (kf *knownFile) match(prop string, v *interp.Violation) (string, bool) {
 		}
 		desc := e.ID + " " + e.Witness
 		kf.mu.Lock()
+		if os.Getenv("VCHECK_KNOWNCLASSES") != "" && !kf.hits["#"+e.ID+"#"+v.Notes["class"]] {
+			kf.hits["#"+e.ID+"#"+v.Notes["class"]] = true
+			fmt.Fprintf(os.Stderr, "KNOWNCLASS %s %q\n", e.ID, v.Notes["class"])
+		}
 		kf.hits[desc] = true
 		kf.mu.Unlock()
 		return e.ID, true
@@ -110,6 +127,9 @@ func (kf *knownFile) match(prop string, v *interp.Violation) (string, bool) {
 func (kf *knownFile) hitList() []string {
 	var out []string
 	for k := range kf.hits {
+		if strings.HasPrefix(k, "#") {
+			continue
+		}
 		out = append(out, k)
 	}
 	sort.Strings(out)
